@@ -82,7 +82,7 @@ HUGE_P = [0.0]
 def gen_array(rng, kinds=None):
     import numpy as np
     from vlib import gen_np, np_userclasses
-    dtype = rng.choice(gen_np.DTYPES)
+    dtype = gen_np.pick_dtype(rng)
     shape = rng.choice(gen_np.SHAPES)
     layout = rng.choice(gen_np.LAYOUTS)
     if rng.random() < BIG_P[0] and dtype != "O":
@@ -309,7 +309,7 @@ def run_workers(case, ctx):
     backend = ["loky", "multiprocessing"][case["i"] % 2]
     specs = []
     for _ in range(5):
-        dt = rng.choice([x for x in gen_np.DTYPES if x != "O"] + ["O"])
+        dt = gen_np.pick_dtype(rng)
         specs.append(dict(dtype=dt, shape=rng.choice([[7], [3, 4], [2, 3, 4], [33], [600], [40, 50], [0], []]),
                           layout=rng.choice(["C", "F", "sliced", "transposed", "offset-view"]),
                           max_nbytes=rng.choice(["none", "size-1", "size", "size+1", "1K", "0"]),
